@@ -230,6 +230,9 @@ type zzStep struct {
 	namespace string
 	// namespaces: per desired resource, overriding namespace ("" = use namespace)
 	namespaces []string
+	// carried: per desired resource, a composition-resource-name annotation its
+	// body carries (e.g. copied over from an observed resource of another name)
+	carried []string
 	// explicit metadata.name the function gives desired resource i ("" = none)
 	names []string
 	// emptyMessages: results carry no message text
@@ -331,6 +334,20 @@ func (r *zzRunner) RunFunction(_ context.Context, name string, req *fnv1.RunFunc
 				if ns != "" {
 					m["metadata"] = map[string]any{"name": st.names[i], "namespace": ns}
 				}
+				ns, err := structpb.NewStruct(m)
+				if err != nil {
+					panic(err)
+				}
+				res.Resource = ns
+			}
+			if i < len(st.carried) && st.carried[i] != "" {
+				m := res.GetResource().AsMap()
+				md, _ := m["metadata"].(map[string]any)
+				if md == nil {
+					md = map[string]any{}
+				}
+				md["annotations"] = map[string]any{AnnotationKeyCompositionResourceName: st.carried[i]}
+				m["metadata"] = md
 				ns, err := structpb.NewStruct(m)
 				if err != nil {
 					panic(err)
